@@ -186,10 +186,22 @@ func TakeSnapshot(d Doer, o SnapOpts) (Snapshot, error) {
 						}
 					}
 				case "neuronjson":
-					for _, t := range []string{"keys", "all?show=all", "fields?counts=true", "keyrange/0/99999999999", "json_schema", "schema", "schema_batch"} {
+					for _, t := range []string{"fields?counts=true", "json_schema", "schema", "schema_batch"} {
 						if _, err := g(t, nil); err != nil {
 							return nil, err
 						}
+					}
+					// list-valued answers: content compared as a set under the plain key, the order separately under key#order
+					for _, t := range []string{"keys", "all?show=all", "keyrange/0/99999999999"} {
+						r2, err := d.Do("GET", base+t, nil)
+						if err != nil {
+							return nil, err
+						}
+						if r2.IsPanic() && o.Panics != nil {
+							*o.Panics = append(*o.Panics, "GET "+base+t+": "+string(r2.Body))
+						}
+						s[base+t+"#order"] = digest(r2)
+						s[base+t] = fmt.Sprintf("%d:%s", r2.Code, canonList(r2.Body))
 					}
 					{
 						// "fields" is a set of names (map iteration order): compare sorted
@@ -386,6 +398,28 @@ func canonJSON(b []byte) string {
 		return fmt.Sprintf("canon sha1=%s len=%d", hex.EncodeToString(h[:8]), len(out))
 	}
 	return string(out)
+}
+
+// canonList renders a JSON array with its members sorted (by their encoding); other documents unchanged.
+func canonList(b []byte) string {
+	var arr []json.RawMessage
+	if err := json.Unmarshal(b, &arr); err != nil {
+		return string(b)
+	}
+	enc := make([]string, len(arr))
+	for i, e := range arr {
+		var v interface{}
+		json.Unmarshal(e, &v)
+		bb, _ := json.Marshal(v)
+		enc[i] = string(bb)
+	}
+	sort.Strings(enc)
+	out := "[" + strings.Join(enc, ",") + "]"
+	if len(out) > 200 {
+		h := sha1.Sum([]byte(out))
+		return fmt.Sprintf("set sha1=%s len=%d n=%d", hex.EncodeToString(h[:8]), len(out), len(enc))
+	}
+	return out
 }
 
 // sortedBlockStream digests a blocks stream (coord 3xint32, int32 n, n bytes)* independent of block order.
